@@ -1,4 +1,5 @@
 import I18n.Lemmas.MoParse
+import I18n.Lemmas.MoDefects
 /-!
 # C09 — malformed MO files are rejected cleanly and never mis-read
 
@@ -42,12 +43,77 @@ theorem parse_ok_iff (db : CodecDB) (given : Option Bytes) (b : Bytes) (f : MoFi
 
 /-- a file that is not a legal MO file of any catalog is never loaded -/
 theorem reject_not_encodes (db : CodecDB) (given : Option Bytes) (b : Bytes)
-    (h : ¬ ∃ cat hidden, Encodes b cat hidden ∧ ∀ e ∈ cat, e.WF) :
+    (h : ¬ WellFormedFile b) :
     (∃ x, parse db given b = .error (.syntax x)) ∨ parse db given b = .error .decode := by
   rcases parse_cases db given b with hx | hx | ⟨f, cat, _, henc, hwf⟩
   · exact Or.inl hx
   · exact Or.inr hx
   · exact absurd ⟨cat, _, henc, hwf⟩ h
+
+/-- **No string is mis-read.**  For a loaded file there are the two table offsets of the header and, for every
+    returned entry `i`, raw key and value bytes such that: the descriptors at `O + 8i` / `T + 8i` hold their
+    (length, offset), the bytes are present in the file at exactly that offset and length, inside the file, and
+    followed by NUL (`StringAt`), and the entry is the decoding (`buildEntry`: NUL split, EOT split, codec) of exactly
+    those bytes. -/
+theorem returned_bytes_present (db : CodecDB) (given : Option Bytes) (b : Bytes) (f : MoFile) (h : parse db given b = .ok f) :
+    ∃ (be : Bool) (ko to : Nat) (cs : Bytes) (raw : List (Bytes × Bytes)),
+      WordAt be b 12 ko ∧ WordAt be b 16 to ∧ raw.length = f.entries.length ∧
+      ∀ i (h1 : i < raw.length) (h2 : i < f.entries.length),
+        StringAt be b (ko + 8 * i) raw[i].1 ∧ StringAt be b (to + 8 * i) raw[i].2 ∧
+        buildEntry db cs (split 0 2 raw[i].1) raw[i].2 (splitAll 0 raw[i].2) = .ok f.entries[i] := by
+  obtain ⟨cat, henc, hwf, hexp⟩ := parse_sound db given b f h
+  have henc' := henc
+  obtain ⟨be, major, minor, ko, to, hm, _, _, _, hn, _, hko, hto, hE, _⟩ := henc
+  unfold expectedAsCoded at hexp
+  cases hd : decodeEntries db (charsetOf db given cat) (cat.map swapCtxt) with
+  | error x => rw [hd] at hexp; cases hexp
+  | ok ds =>
+    rw [hd] at hexp
+    simp at hexp
+    obtain ⟨hl, hi⟩ := decodeEntries_get db _ _ ds hd
+    have hfe : f.entries = ds := by rw [← hexp]
+    refine ⟨be, ko, to, charsetOf db given cat, cat.map (fun e => (e.key, e.value)), hko, hto, by simp [hfe, hl], ?_⟩
+    intro i h1 h2
+    have hic : i < cat.length := by simpa using h1
+    have hS := EntriesAt_get cat 0 hE i hic
+    simp only [List.getElem_map]
+    refine ⟨by simpa using hS.1, by simpa using hS.2, ?_⟩
+    rw [buildEntry_spec db _ (hwf _ (List.getElem_mem hic))]
+    have := hi i (by simpa using hic) (by rw [← hfe]; exact h2)
+    simp only [List.getElem_map] at this
+    rw [this]
+    simp [hfe]
+
+/-! ### one rejection theorem per clause of the statement
+
+Each defect, stated on the bytes alone, excludes `WellFormedFile`; by `reject_not_encodes` the loader then raises
+(the MO syntax error — or the decode error of an *earlier* entry), and by `checker_rejects_malformed` below the
+checker reports `invalid-mo-file` and derives nothing else from the file. -/
+
+theorem reject_magic_clause (b : Bytes) (h : BadMagic b) : ¬ WellFormedFile b := not_wf_of_BadMagic h
+theorem reject_major_clause (b : Bytes) (h : BadMajor b) : ¬ WellFormedFile b := not_wf_of_BadMajor h
+theorem reject_header_beyond_end (b : Bytes) (h : HeaderBeyondEnd b) : ¬ WellFormedFile b := not_wf_of_HeaderBeyondEnd h
+theorem reject_table_beyond_end (b : Bytes) (h : TableBeyondEnd b) : ¬ WellFormedFile b := not_wf_of_TableBeyondEnd h
+theorem reject_string_beyond_end (b : Bytes) (h : StringBeyondEnd b) : ¬ WellFormedFile b := not_wf_of_StringBeyondEnd h
+theorem reject_missing_terminator (b : Bytes) (h : MissingTerminator b) : ¬ WellFormedFile b := not_wf_of_MissingTerminator h
+theorem reject_nul_structure (b : Bytes) (h : BadNulStructure b) : ¬ WellFormedFile b := not_wf_of_BadNulStructure h
+theorem reject_keys_out_of_order (b : Bytes) (h : KeysOutOfOrder b) : ¬ WellFormedFile b := not_wf_of_KeysOutOfOrder h
+
+/-- the clauses together, at the loader: any of the defects ⇒ the loader raises its syntax error or a decode error -/
+theorem defect_rejected (db : CodecDB) (given : Option Bytes) (b : Bytes)
+    (h : BadMagic b ∨ BadMajor b ∨ HeaderBeyondEnd b ∨ TableBeyondEnd b ∨ StringBeyondEnd b ∨ MissingTerminator b ∨
+      BadNulStructure b ∨ KeysOutOfOrder b) :
+    (∃ x, parse db given b = .error (.syntax x)) ∨ parse db given b = .error .decode := by
+  apply reject_not_encodes
+  rcases h with h | h | h | h | h | h | h | h
+  · exact not_wf_of_BadMagic h
+  · exact not_wf_of_BadMajor h
+  · exact not_wf_of_HeaderBeyondEnd h
+  · exact not_wf_of_TableBeyondEnd h
+  · exact not_wf_of_StringBeyondEnd h
+  · exact not_wf_of_MissingTerminator h
+  · exact not_wf_of_BadNulStructure h
+  · exact not_wf_of_KeysOutOfOrder h
 
 /-! ### the first clauses, with the exact error -/
 
@@ -144,8 +210,7 @@ theorem no_further_tags (db : CodecDB) (b : Bytes) (x : SynErr) (h : Tag.invalid
 
 /-- **Malformed ⇒ `invalid-mo-file`.**  A file that is not a legal MO file of any catalog gets the tag (first), and
     nothing is loaded. -/
-theorem checker_rejects_malformed (db : CodecDB) (hl : Latin1OK db) (b : Bytes)
-    (h : ¬ ∃ cat hidden, Encodes b cat hidden ∧ ∀ e ∈ cat, e.WF) :
+theorem checker_rejects_malformed (db : CodecDB) (hl : Latin1OK db) (b : Bytes) (h : ¬ WellFormedFile b) :
     ∃ x, (checkerLoad db b).tags.head? = some (.invalidMoFile x) ∧ (checkerLoad db b).file = none := by
   have hno : ∀ given f, parse db given b ≠ .ok f := by
     intro given f hf
@@ -177,6 +242,22 @@ theorem expectedAsCoded_not_syntax (db : CodecDB) (given : Option Bytes) (cat : 
   | error y =>
     have := decodeEntries_not_syntax db (charsetOf db given cat) (cat.map swapCtxt) x
     rw [h] at this; simp; exact fun e => this (by rw [e])
+
+/-- the clauses together, at the checker: any of the defects ⇒ `invalid-mo-file`, and the method returns -/
+theorem defect_reported (db : CodecDB) (hl : Latin1OK db) (b : Bytes)
+    (h : BadMagic b ∨ BadMajor b ∨ HeaderBeyondEnd b ∨ TableBeyondEnd b ∨ StringBeyondEnd b ∨ MissingTerminator b ∨
+      BadNulStructure b ∨ KeysOutOfOrder b) :
+    ∃ x, (checkerLoad db b).tags.head? = some (.invalidMoFile x) ∧ (checkerLoad db b).file = none := by
+  apply checker_rejects_malformed db hl
+  rcases h with h | h | h | h | h | h | h | h
+  · exact not_wf_of_BadMagic h
+  · exact not_wf_of_BadMajor h
+  · exact not_wf_of_HeaderBeyondEnd h
+  · exact not_wf_of_TableBeyondEnd h
+  · exact not_wf_of_StringBeyondEnd h
+  · exact not_wf_of_MissingTerminator h
+  · exact not_wf_of_BadNulStructure h
+  · exact not_wf_of_KeysOutOfOrder h
 
 /-- **Well-formed ⇒ loaded**, with `broken-encoding` exactly when the text does not decode in the declared charset. -/
 theorem checker_accepts_wellformed (db : CodecDB) (hl : Latin1OK db) (b : Bytes) (cat : List CatEntry) (hidden : Bool)
